@@ -152,6 +152,8 @@ theorem modifyAt_length {α : Type} (f : α → α) (n : Nat) (l : List α) : (m
 /-- what the property's quantifier allows a workload to do at clock `clock` -/
 def GoodEv (U : String → Int → Bool → Inst) (clock : Int) : Event Desc → Prop
   | .cas _ _ f => GoodFn U clock f
+  | .delete _ _ => False      -- key-level Delete and the obsolete-entries cleanup are outside the theorems
+  | .cleanup _ => False
   | _ => True
 
 structure Inv (U : String → Int → Bool → Inst) (c : Cluster Desc) : Prop where
@@ -286,6 +288,8 @@ theorem inv_step (hU : Univ U) (hT : TombClosed U) {cfg : Cfg} (hcfg : cfg.lit =
       rw [(foldl_notifySync nd.notifs nd).1]; exact (hinv.nodes nd hnd).2
   | restart n =>
     exact inv_upd hinv n _ fun _ _ => ⟨goodNode_empty _, by simp [KeysNodup]⟩
+  | delete n k => exact absurd hev (by simp [GoodEv])
+  | cleanup n => exact absurd hev (by simp [GoodEv])
   | tick =>
     refine ⟨by simp only [stepC]; have := hinv.clock; omega, ?_, ?_⟩
     · intro nd hnd
